@@ -125,7 +125,39 @@ enum ScriptOp {
     Reopen(Config),
 }
 
+/// A script whose WAL lives long: a 4 MiB memtable, a short first session, a reopen (where the
+/// WAL is taken over for appends), then ~2 MB of 300-700 byte records into the same WAL - about a
+/// hundred 32 KiB block boundaries are crossed at all alignments - and a final reopen.
+fn make_long_wal_script(seed: u64) -> Script {
+    let mut rng = Rng::new(mix(&[seed], "c08-long-wal"));
+    let cfg = Config { memtable: 4 << 20, file: 2 << 20, block: 4096, reuse: true };
+    let pool = gen::key_pool(&mut rng, KeyFamily::Ascii, 400);
+    let mut ops = vec![];
+    let mut counter = 0u64;
+    for _ in 0..40 {
+        counter += 1;
+        ops.push(ScriptOp::Write(vec![(rng.pick(&pool).clone(), Some(gen::tagged_value(&mut rng, &format!("v{counter}:"), 200)))]));
+    }
+    ops.push(ScriptOp::Reopen(cfg));
+    for i in 0..4000u64 {
+        counter += 1;
+        let len = rng.range(300, 700) as usize;
+        ops.push(ScriptOp::Write(vec![(rng.pick(&pool).clone(), Some(gen::tagged_value(&mut rng, &format!("v{counter}:"), len)))]));
+        if i % 500 == 250 {
+            ops.push(ScriptOp::Get(rng.pick(&pool).clone()));
+        }
+    }
+    ops.push(ScriptOp::Reopen(cfg));
+    for _ in 0..20 {
+        ops.push(ScriptOp::Get(rng.pick(&pool).clone()));
+    }
+    Script { cfg, pool, ops }
+}
+
 fn make_script(history: u64, seed: u64, n_ops: usize) -> Script {
+    if history == 4 {
+        return make_long_wal_script(seed);
+    }
     let mut rng = Rng::new(mix(&[seed, history], "c08-script"));
     let cfg = Config {
         memtable: *rng.pick(&[256usize, 512, 1024]),
@@ -324,8 +356,8 @@ fn run_script(out: &mut CaseOut, script: &Script, fault: Option<Fault>, ctx: &se
 
 pub fn run_case(tier: &str, seed: u64, idx: u64) -> CaseOut {
     let mut out = CaseOut::new();
-    let history = idx % HISTORIES;
-    let j = idx / HISTORIES;
+    // every 20th case runs the long-WAL script (history 4), the others rotate over scripts 0-3
+    let (history, j) = if idx % 20 == 19 { (4, idx / 20) } else { (idx % HISTORIES, idx / HISTORIES) };
     let script = make_script(history, seed, if tier == "quick" { 150 } else { 220 });
     // pilot: no fault, classify the call stream
     let mut pilot_out = CaseOut::new();
@@ -339,7 +371,20 @@ pub fn run_case(tier: &str, seed: u64, idx: u64) -> CaseOut {
         return out;
     }
     let pilot = pilot.unwrap();
-    let pos = positions(&pilot.counts, tier != "quick");
+    let pos = if history == 4 {
+        // the interesting calls of this script are the few made while opening / taking over files
+        let mut v = vec![];
+        for ((kind, class), n) in &pilot.counts {
+            if *n <= 8 && !matches!(kind, OpKind::IsDir | OpKind::Lock | OpKind::Mkdir | OpKind::RemoveDir) {
+                for o in 0..*n {
+                    v.push((*kind, *class, o));
+                }
+            }
+        }
+        v
+    } else {
+        positions(&pilot.counts, tier != "quick")
+    };
     let n_pos = pos.len() as u64;
     let modes = [FaultMode::Transient, FaultMode::StickySame, FaultMode::StickyAll];
     let combo = j % (n_pos * 3);
